@@ -53,6 +53,22 @@ Proof. reflexivity. Qed.
 Lemma dget_dset_other_dict m nm nm' key key' v : nm <> nm' -> dget (dset m nm key v) nm' key' = dget m nm' key'.
 Proof. intros H. unfold dget, dset. cbn. rewrite (lookup_update_other nm nm' _ H). reflexivity. Qed.
 
+Lemma dget_ensure_other_dict m nm nm' key key' : nm <> nm' -> dget (ensure_key m nm key) nm' key' = dget m nm' key'.
+Proof.
+  intros H. unfold ensure_key. destruct (lookup nm (dicts m)) as [[|p d]|]; try reflexivity;
+    unfold dget; cbn; rewrite (lookup_update_other nm nm' _ H); reflexivity.
+Qed.
+Lemma dget_ensure_other_key m nm key key' : key <> key' -> dget (ensure_key m nm key) nm key' = dget m nm key'.
+Proof.
+  intros H. unfold ensure_key. destruct (lookup nm (dicts m)) as [[|p d]|] eqn:E; try reflexivity;
+    unfold dget; cbn; rewrite lookup_update_same, E; cbn;
+    (destruct (ustr_eqb key key') eqn:Eu; [apply ustr_eqb_eq in Eu; contradiction|reflexivity]).
+Qed.
+Lemma ensure_key_vars m nm key : vars (ensure_key m nm key) = vars m.
+Proof. unfold ensure_key. destruct (lookup nm (dicts m)) as [[|p d]|]; reflexivity. Qed.
+Lemma ensure_key_stacks m nm key : stacks (ensure_key m nm key) = stacks m.
+Proof. unfold ensure_key. destruct (lookup nm (dicts m)) as [[|p d]|]; reflexivity. Qed.
+
 (** the dictionary a bookkeeping function writes *)
 Definition writes (g : agg) : option Z :=
   match g with
@@ -111,8 +127,9 @@ Section Agg.
     - cbn [fst x with_mx]. exact H.
     - cbn [fst x with_mx]. exact H.
     - cbn [fst x with_mx]. rewrite dget_vars_stacks, dget_dset_other_dict; [exact H|]. intros E. apply Hw. rewrite E. reflexivity.
-    - destruct (Assign.do_assignment _ _ _ _) as [[[|] vote]|]; cbn [fst x with_mx]; try exact H.
-      rewrite dget_dset_other_dict; [exact H|]. intros E. apply Hw. rewrite E. reflexivity.
+    - assert (Hn : nm' <> nm) by (intros E; apply Hw; rewrite E; reflexivity).
+      destruct (Assign.do_assignment _ _ _ _) as [[[|] vote]|]; cbn [fst x with_mx];
+        rewrite ?dget_dset_other_dict, dget_ensure_other_dict by exact Hn; exact H.
     - destruct (Assign.do_assignment _ _ _ _) as [[[|] vote]|]; cbn [fst x with_mx]; exact H.
   Qed.
 
@@ -268,7 +285,8 @@ Section Steps.
   Qed.
 
   (* @nm.key.<qualifiers> = e: the same table, read from and written to the value the variable holds under that key — the other keys of
-     the variable, and every other variable, keep what they hold *)
+     the variable, and every other variable, keep what they hold; when nothing is written the only trace is the one reading leaves:
+     a variable that did not exist is now {key: None} (ensure_key: CsvPath.get_variable) *)
   Theorem assign_qk_step s l qs nm key e :
     let cur := aval_of (match dget (x mx s) nm key with Some c0 => c0 | None => VNone end) in
     let y := aval_of (nvalue blanks s l e) in
@@ -276,7 +294,7 @@ Section Steps.
     Assign.comparable cur y = true ->
     snd r = Assign.vote qs true cur y /\
     (Assign.write qs true cur y = true -> dget (x mx (fst r)) nm key = Some (nvalue blanks s l e)) /\
-    (Assign.write qs true cur y = false -> fst r = s) /\
+    (Assign.write qs true cur y = false -> fst r = with_mx s (ensure_key (x mx s) nm key)) /\
     (forall key', key <> key' -> dget (x mx (fst r)) nm key' = dget (x mx s) nm key') /\
     (forall nm' key', nm <> nm' -> dget (x mx (fst r)) nm' key' = dget (x mx s) nm' key') /\
     vars (x mx (fst r)) = vars (x mx s).
@@ -286,8 +304,11 @@ Section Steps.
     destruct (AssignProofs.assignment_table qs true _ _ w vt E) as [Hw Hv]. subst w vt.
     destruct (Assign.write qs true _ _) eqn:Ew; cbn [fst snd x with_mx].
     - split; [reflexivity|]. split; [intros _; apply dget_dset_same|]. split; [discriminate|].
-      split; [intros key' Hk; apply dget_dset_other_key; exact Hk|]. split; [intros nm' key' Hn; apply dget_dset_other_dict; exact Hn|reflexivity].
-    - split; [reflexivity|]. split; [discriminate|]. split; [reflexivity|]. split; [reflexivity|]. split; reflexivity.
+      split; [intros key' Hk; rewrite dget_dset_other_key by exact Hk; apply dget_ensure_other_key; exact Hk|].
+      split; [intros nm' key' Hn; rewrite dget_dset_other_dict by exact Hn; apply dget_ensure_other_dict; exact Hn|apply ensure_key_vars].
+    - split; [reflexivity|]. split; [discriminate|]. split; [reflexivity|].
+      split; [intros key' Hk; apply dget_ensure_other_key; exact Hk|].
+      split; [intros nm' key' Hn; apply dget_ensure_other_dict; exact Hn|apply ensure_key_vars].
   Qed.
 
   Theorem sum_step s l nm e :
